@@ -255,6 +255,18 @@ let handle (fields : string list) : string =
     let (n, es) = atom_graph (List.map aelem_of (lst (parse_sexp elems))) in
     let kn = function WStatic -> "static" | WStoch -> "stochastic" | WTerm -> "termination" | WTrans -> "transition" in
     string_of_z n ^ " " ^ String.concat ";" (List.map (fun e -> Printf.sprintf "%s>%s:%s:%s:%s" (string_of_z e.a_u) (string_of_z e.a_v) (string_of_z e.a_bt) (kn e.a_kind) (string_of_q e.a_w)) es)
+  | [ "token"; raw; off; valid ] ->
+    (* valid: comma separated hex of the bracket atoms RDKit accepts *)
+    let vs = List.map unhex (split_nonempty ',' valid) in
+    let valid_atom (t : str) = List.mem (implode t) vs in
+    (match parse_token valid_atom (explode (unhex raw)) (z_of_string off) with
+     | Err (e, _) -> "ERR " ^ err_name e
+     | OK t ->
+       let el = function TAtom a -> "a:" ^ hex (implode a) | TStr s -> "s:" ^ hex (implode s) | TBond d -> "b:" ^ hex (implode (print_descr fprint true d)) in
+       let frag = (match fragment_string t with OK s -> "OK:" ^ hex (implode s) | Err (e, _) -> "ERR:" ^ err_name e) in
+       "OK " ^ String.concat "," (List.map el t.k_elements) ^ " " ^ string_of_int (List.length t.k_atoms) ^ " "
+       ^ String.concat ";" (List.map show_descr t.k_bds) ^ " " ^ hex (implode (print_token fprint true t)) ^ " " ^ hex (implode (print_token fprint false t))
+       ^ " " ^ frag ^ " " ^ (if token_generable t then "T" else "F"))
   | [ "float"; s ] ->
     (match py_float (explode (unhex s)) with None -> "ERR" | Some x -> string_of_num x ^ " " ^ implode (fprint x))
   | [ "repr"; s ] -> py_repr (float_of_string s)
